@@ -589,15 +589,30 @@ func ruleC13ParallelGuard(c *Ctx) {
 }
 
 
-// parallelSafeWorklist recognises the iterative form of the predicate (an explicit stack instead of recursion) and
-// decides it: a list that starts as [expr]; each round takes one node off the list; the function answers true only
-// when the list is empty, and a round goes on to the next one only for a column-to-column comparison, a boolean
-// literal (list unchanged), or an AND/OR node whose Left and Right are both appended to the list.
-func parallelSafeWorklist(safe *ssa.Function) (why []string, isWorklist bool) {
-	// the loop header: a phi of slice type tested with len(pending) > 0 (or != 0)
+// A predicate over an expression tree written with an explicit stack instead of recursion: a list that starts as
+// [expr]; each round takes one node off the list; the answer is true only when the list is exhausted; a round either
+// answers false or goes on to the next round, possibly after putting the node's operands on the list.
+type wlRound struct {
+	p          *Path
+	kind       string // the asserted type of the node this round looks at ("" if none)
+	node       *Term  // the type assertion of the node
+	next       *Term  // the list handed to the next round
+	popped     bool   // next is the list without the node
+	pushesBoth bool   // next is the list without the node plus the node's Left and Right
+}
+
+type worklist struct {
+	fn      *ssa.Function
+	pending *ssa.Phi
+	why     []string // structural defects of the loop itself
+	rounds  []wlRound
+}
+
+// recogniseWorklist returns nil when fn is not written in worklist form.
+func recogniseWorklist(fn *ssa.Function) *worklist {
 	var header *ssa.BasicBlock
 	var pending *ssa.Phi
-	for _, b := range safe.Blocks {
+	for _, b := range fn.Blocks {
 		if len(b.Instrs) == 0 {
 			continue
 		}
@@ -628,25 +643,22 @@ func parallelSafeWorklist(safe *ssa.Function) (why []string, isWorklist bool) {
 		}
 		header, pending = b, ph
 	}
-	if header == nil {
-		return nil, false
+	if header == nil || len(fn.Params) == 0 {
+		return nil
 	}
-	isWorklist = true
+	wl := &worklist{fn: fn, pending: pending}
 	body, exit := header.Succs[0], header.Succs[1]
-	// the list starts as [expr]
+	// the list starts as [expr], expr being a parameter
 	initOK := false
 	for i, e := range pending.Edges {
 		if header.Dominates(header.Preds[i]) {
 			continue
 		}
-		t := NewTB().Of(e)
-		if t.Op == "varargs" && len(t.Args) == 1 && t.Args[0].Op == "param" || strings.Contains(t.String(), "p:"+safe.Params[0].Name()) {
-			initOK = true
-		}
 		if sl, isSl := e.(*ssa.Slice); isSl {
 			if a, isA := sl.X.(*ssa.Alloc); isA {
-				for _, st := range allocElemStores(a) {
-					if st == ssa.Value(safe.Params[0]) {
+				st := allocElemStores(a)
+				if len(st) == 1 {
+					if _, isP := st[0].(*ssa.Parameter); isP {
 						initOK = true
 					}
 				}
@@ -654,55 +666,87 @@ func parallelSafeWorklist(safe *ssa.Function) (why []string, isWorklist bool) {
 		}
 	}
 	if !initOK {
-		why = append(why, "the list of pending nodes does not start with the expression itself")
+		wl.why = append(wl.why, "the list of pending nodes does not start with the expression itself")
 	}
-	// after the loop: true; inside: never true
-	post, err := WalkFrom(safe, exit, header, WalkCfg{MaxVisits: 1, NoEffects: true})
+	post, err := WalkFrom(fn, exit, header, WalkCfg{MaxVisits: 1, NoEffects: true})
 	if err != nil {
-		return append(why, err.Error()), true
+		wl.why = append(wl.why, err.Error())
+		return wl
 	}
 	for _, p := range post {
-		if p.Exit == "return" && len(p.Ret) == 1 && !(p.Ret[0].C != nil) {
-			why = append(why, "the answer after the list is exhausted is not a constant")
+		if p.Exit == "return" && len(p.Ret) == 1 && p.Ret[0].C == nil {
+			wl.why = append(wl.why, "the answer after the list is exhausted is not a constant")
 		}
 	}
-	paths, err := WalkFrom(safe, body, header, WalkCfg{StopAt: func(b *ssa.BasicBlock) bool { return b == header }, MaxVisits: 1})
+	paths, err := WalkFrom(fn, body, header, WalkCfg{StopAt: func(b *ssa.BasicBlock) bool { return b == header }, MaxVisits: 1})
 	if err != nil {
-		return append(why, err.Error()), true
+		wl.why = append(wl.why, err.Error())
+		return wl
 	}
-	derivesFromPending := func(t *Term) bool {
+	derives := func(t *Term) bool {
 		return t != nil && t.Contains(func(x *Term) bool { return x.V == ssa.Value(pending) })
 	}
-	nStop := 0
 	for _, p := range paths {
 		if p.Exit == "return" {
 			if len(p.Ret) == 1 && (p.Ret[0].C == nil || isTrueC(p.Ret[0].C)) {
-				why = append(why, "the predicate can answer true before the list of pending nodes is exhausted")
+				wl.why = append(wl.why, "the predicate can answer true before the list of pending nodes is exhausted")
 			}
 			continue
 		}
 		if p.Exit != "stop" {
-			why = append(why, "a round of the worklist loop could not be followed to its end")
+			wl.why = append(wl.why, "a round of the worklist loop could not be followed to its end")
 			continue
 		}
-		nStop++
-		kind := ""
-		var node *Term
+		r := wlRound{p: p}
 		for _, k := range p.Order {
 			kt := p.KeyTerm[k]
-			if kt != nil && kt.Op == "ext" && kt.Name == "1" && kt.Args[0].Op == "assertok" && kt.Args[0].Args[0].Op == "index" && derivesFromPending(kt.Args[0].Args[0]) {
-				if v, _ := p.Assumed(k); v && kind == "" {
-					kind, node = kt.Args[0].Name, kt.Args[0]
+			if kt != nil && kt.Op == "ext" && kt.Name == "1" && kt.Args[0].Op == "assertok" && kt.Args[0].Args[0].Op == "index" && derives(kt.Args[0].Args[0]) {
+				if v, _ := p.Assumed(k); v && r.kind == "" {
+					r.kind, r.node = kt.Args[0].Name, kt.Args[0]
 				}
 			}
 		}
-		next := p.PhiIn[pending].T
-		popped := next != nil && next.Op == "slice" && derivesFromPending(next)
-		switch kind {
+		r.next = p.PhiIn[pending].T
+		r.popped = r.next != nil && r.next.Op == "slice" && derives(r.next)
+		if r.node != nil && r.next != nil && r.next.Op == "call" && r.next.Name == "builtin:append" && len(r.next.Args) == 2 && r.next.Args[0].Op == "slice" && derives(r.next.Args[0]) && r.next.Args[1].Op == "varargs" {
+			l, rr := false, false
+			for _, a := range r.next.Args[1].Args {
+				if a.Op != "field" || len(a.Args) != 1 || a.Args[0].Op != "ext" {
+					continue
+				}
+				if x, ok := a.Args[0].V.(*ssa.Extract); ok && x.Tuple == r.node.V {
+					switch a.Name {
+					case "Left":
+						l = true
+					case "Right":
+						rr = true
+					}
+				}
+			}
+			r.pushesBoth = l && rr
+		}
+		wl.rounds = append(wl.rounds, r)
+	}
+	if len(wl.rounds) == 0 {
+		wl.why = append(wl.why, "no round of the worklist loop continues")
+	}
+	return wl
+}
+
+// parallelSafeWorklist decides the iterative form of isParallelSafe: a round goes on only for a column-to-column
+// comparison, a boolean literal (list unchanged), or an AND/OR node whose Left and Right are both appended to the list.
+func parallelSafeWorklist(safe *ssa.Function) (why []string, isWorklist bool) {
+	wl := recogniseWorklist(safe)
+	if wl == nil {
+		return nil, false
+	}
+	why = append(why, wl.why...)
+	for _, r := range wl.rounds {
+		switch r.kind {
 		case "*sqlparser.ComparisonExpr":
 			both := 0
-			for k, v := range p.Asg {
-				kt := p.KeyTerm[k]
+			for k, v := range r.p.Asg {
+				kt := r.p.KeyTerm[k]
 				if kt != nil && kt.Op == "ext" && kt.Name == "1" && kt.Args[0].Op == "assertok" && kt.Args[0].Name == "*sqlparser.ColName" && isTrueC(v) {
 					both++
 				}
@@ -710,44 +754,20 @@ func parallelSafeWorklist(safe *ssa.Function) (why []string, isWorklist bool) {
 			if both < 2 {
 				why = append(why, "a comparison is accepted although an operand is not a plain column reference")
 			}
-			if !popped {
-				why = append(why, "after a comparison the list of pending nodes is "+termStr(next)+", not the list without the node")
+			if !r.popped {
+				why = append(why, "after a comparison the list of pending nodes is "+termStr(r.next)+", not the list without the node")
 			}
 		case "sqlparser.BoolVal":
-			if !popped {
-				why = append(why, "after a boolean literal the list of pending nodes is "+termStr(next)+", not the list without the node")
+			if !r.popped {
+				why = append(why, "after a boolean literal the list of pending nodes is "+termStr(r.next)+", not the list without the node")
 			}
 		case "*sqlparser.AndExpr", "*sqlparser.OrExpr":
-			okPush := false
-			if next != nil && next.Op == "call" && next.Name == "builtin:append" && len(next.Args) == 2 && derivesFromPending(next.Args[0]) && next.Args[1].Op == "varargs" {
-				l, r := false, false
-				for _, a := range next.Args[1].Args {
-					ex, isEx := ssa.Value(nil), false
-					if a.Op == "field" && len(a.Args) == 1 && a.Args[0].Op == "ext" {
-						if x, ok := a.Args[0].V.(*ssa.Extract); ok {
-							ex, isEx = x.Tuple, true
-						}
-					}
-					if isEx && ex == node.V {
-						switch a.Name {
-						case "Left":
-							l = true
-						case "Right":
-							r = true
-						}
-					}
-				}
-				okPush = l && r
-			}
-			if !okPush {
-				why = append(why, kind+" is accepted without putting both of its operands on the list of pending nodes (the list becomes "+termStr(next)+")")
+			if !r.pushesBoth {
+				why = append(why, r.kind+" is accepted without putting both of its operands on the list of pending nodes (the list becomes "+termStr(r.next)+")")
 			}
 		default:
-			why = append(why, "a node of kind "+kind+" (or an unknown kind) is accepted: its evaluator may write query state")
+			why = append(why, "a node of kind "+r.kind+" (or an unknown kind) is accepted: its evaluator may write query state")
 		}
-	}
-	if nStop == 0 {
-		why = append(why, "no round of the worklist loop continues")
 	}
 	return why, true
 }
@@ -910,4 +930,103 @@ func storageRoots(v ssa.Value) map[ssa.Value]bool {
 	}
 	visit(v, 0)
 	return out
+}
+
+func init() { register("C13", ruleC13RecordLocks); register("C04", ruleC13RecordLocks) }
+
+// ruleC13RecordLocks: a record that carries its own mutex is written only while that mutex is held, wherever goroutines run.
+func ruleC13RecordLocks(c *Ctx) {
+	c.Doc("c13.record-locks", "shared state kept in a record instead of captured variables (a collector/result type with a sync.Mutex field that the goroutines of a PARALLEL join share): in every function reachable from a `go` statement of the module, each store to a data field of such a record (and each element store through one) is made while a mutex is held; constructors and the code after wg.Wait are not reachable from a go statement and are exempt")
+	// lock-carrying record types of the module
+	carries := func(t types.Type) bool {
+		pt, ok := t.Underlying().(*types.Pointer)
+		if !ok {
+			return false
+		}
+		nt, ok := pt.Elem().(*types.Named)
+		if !ok || nt.Obj().Pkg() == nil || !strings.HasPrefix(nt.Obj().Pkg().Path(), modPath) {
+			return false
+		}
+		st, ok := nt.Underlying().(*types.Struct)
+		if !ok {
+			return false
+		}
+		for i := 0; i < st.NumFields(); i++ {
+			if s := st.Field(i).Type().String(); s == "sync.Mutex" || s == "sync.RWMutex" {
+				return true
+			}
+		}
+		return false
+	}
+	isSyncField := func(t types.Type, idx int) bool {
+		st, ok := t.Underlying().(*types.Pointer).Elem().Underlying().(*types.Struct)
+		if !ok || idx >= st.NumFields() {
+			return false
+		}
+		return strings.HasPrefix(st.Field(idx).Type().String(), "sync.")
+	}
+	// functions reachable from the go statements
+	reach := map[*ssa.Function]bool{}
+	var visit func(f *ssa.Function, d int)
+	visit = func(f *ssa.Function, d int) {
+		if f == nil || reach[f] || d > 5 || len(f.Blocks) == 0 || !c.P.InModule(f) {
+			return
+		}
+		reach[f] = true
+		for _, a := range f.AnonFuncs {
+			visit(a, d+1)
+		}
+		allInstrs(f, func(_ *ssa.BasicBlock, in ssa.Instruction) {
+			if ci, ok := in.(ssa.CallInstruction); ok {
+				visit(ci.Common().StaticCallee(), d+1)
+			}
+		})
+	}
+	for _, f := range c.P.ModFuncs {
+		allInstrs(f, func(_ *ssa.BasicBlock, in ssa.Instruction) {
+			if g, ok := in.(*ssa.Go); ok {
+				switch v := g.Call.Value.(type) {
+				case *ssa.MakeClosure:
+					visit(v.Fn.(*ssa.Function), 0)
+				case *ssa.Function:
+					visit(v, 0)
+				}
+			}
+		})
+	}
+	n := 0
+	var fns []*ssa.Function
+	for f := range reach {
+		fns = append(fns, f)
+	}
+	sort.Slice(fns, func(i, j int) bool { return fns[i].String() < fns[j].String() })
+	for _, f := range fns {
+		k := 0
+		allInstrs(f, func(_ *ssa.BasicBlock, in ssa.Instruction) {
+			st, ok := in.(*ssa.Store)
+			if !ok {
+				return
+			}
+			var fa *ssa.FieldAddr
+			switch a := st.Addr.(type) {
+			case *ssa.FieldAddr:
+				fa = a
+			case *ssa.IndexAddr:
+				// an element store through a field of the record
+				if ld, isLd := a.X.(*ssa.UnOp); isLd && ld.Op == token.MUL {
+					fa, _ = ld.X.(*ssa.FieldAddr)
+				}
+			}
+			if fa == nil || !carries(fa.X.Type()) || isSyncField(fa.X.Type(), fa.Field) {
+				return
+			}
+			n++
+			k++
+			held := locksHeldAt(f, st)
+			c.Check(len(held) > 0, "c13.record-locks", fmt.Sprintf("%s/%s#%d", c.P.funcKey(f), fieldName(fa.X.Type(), fa.Field), k), c.P.Pos(st.Pos()), "stored while a mutex is held", "the field "+fieldName(fa.X.Type(), fa.Field)+" of a record shared by goroutines is written without holding its mutex: concurrent instances race on it (lost rows, torn slice headers)")
+		})
+	}
+	if n == 0 {
+		c.PassTrivial("c13.record-locks", "module", "-", "no goroutine-reachable function stores to a field of a mutex-carrying record (the parallel executors keep their shared state in captured variables: c13.captured-vars)")
+	}
 }
